@@ -391,14 +391,15 @@ package ro
 //@   scope e varargs
 //@   track e.* callfn.*
 //@   ensures [runs-no-method-of-the-recovered-value|C07,C06,C03] !called(e.ANY) && !called(callfn.ANY)
+//@   ensures [an-error-is-passed-on-as-it-is|C07] is_error(e) ==> result == e
 
 //@ func newObservableError
 //@   note tags the failure of a subscribe function: a new error value that wraps exactly the cause it is given (the subscriber's Error still matches the original cause with errors.Is / errors.As); nothing else is looked at or called
 //@   props C07
 //@   binds err
 //@   scope complit err
-//@   track call.* callfn.*
-//@   ensures [a-new-error-that-wraps-exactly-the-cause|C07] newobject(result) && result.err == err && trace()
+//@   track call.* callfn.* err.*
+//@   ensures [a-new-error-that-wraps-exactly-the-cause|C07,C03,C06] newobject(result) && result.err == err && trace()
 
 
 //@ func newObserverError
@@ -406,17 +407,17 @@ package ro
 //@   props C07
 //@   binds err
 //@   scope complit err
-//@   track call.* callfn.*
-//@   ensures [a-new-error-that-wraps-exactly-the-cause|C07] newobject(result) && result.err == err && trace()
+//@   track call.* callfn.* err.*
+//@   ensures [a-new-error-that-wraps-exactly-the-cause|C07,C03,C06] newobject(result) && result.err == err && trace()
 
 
 //@ func newUnsubscriptionError
-//@   note tags the failure of a teardown: a new error value that wraps exactly the cause it is given (the subscriber's Error still matches the original cause with errors.Is / errors.As); nothing else is looked at or called
-//@   props C07
+//@   note tags the failure of a teardown: a new error value that wraps exactly the cause it is given (the subscriber's Error still matches the original cause with errors.Is / errors.As); nothing else is looked at or called - it runs inside the recover handler of a finalizer, where a second panic would skip the remaining finalizers
+//@   props C07 C03 C06
 //@   binds err
 //@   scope complit err
-//@   track call.* callfn.*
-//@   ensures [a-new-error-that-wraps-exactly-the-cause|C07] newobject(result) && result.err == err && trace()
+//@   track call.* callfn.* err.*
+//@   ensures [a-new-error-that-wraps-exactly-the-cause|C07,C03,C06] newobject(result) && result.err == err && trace()
 
 // Observer constructors: a new observer in the open state around exactly the callbacks it is given.
 
